@@ -125,7 +125,8 @@ def emptyMsg (type mid : Nat) : Reply := ⟨.lib, type, 0, mid, [], [], .bytes [
 
 /-- the address the datagram was sent to, as coap_print_addr() prints it without port (a constant of the harness) -/
 def localAddrText (mcast : Bool) : Bytes :=
-  (if mcast then "224.0.1.187" else "127.0.0.1").toUTF8.toList
+  if mcast then [50, 50, 52, 46, 48, 46, 49, 46, 49, 56, 55]   -- "224.0.1.187"
+  else [49, 50, 55, 46, 48, 46, 48, 46, 49]                    -- "127.0.0.1"
 
 /-- coap_send_internal(): a 5.08 without Hop-Limit option and without data gets Hop-Limit 255 and the address -/
 def sendFix (mcast : Bool) (r : Reply) : Reply :=
